@@ -72,3 +72,13 @@ Theorem C09_K8_sd_overflow_nan :
   map (fun p => map PrimFloat.is_nan (last_out [oN 0 KSd (Pm p 0 0 0); oX 0 1.7e308; oX 0 (-1.7e308); oX 0 1.7e308])) [1%N; 2%N; 3%N]
   = [[true]; [true]; [true]].
 Proof. vm_compute. reflexivity. Qed.
+
+(* ---- ... and PROVED below 2^400 (binary64, Flocq): for every period < 2^53 and every stream of at most 2^40 - 2 finite inputs
+        of magnitude at most M, 1 <= M <= 2^400, every StandardDeviation output is a finite number >= 0 — never NaN ---- *)
+From Coq Require Import Reals.
+From Flocq Require Import Core.
+From TA Require Import Proofs.Wiring Proofs.FloatErr Proofs.FloatSma Proofs.FloatSd.
+Theorem C09_sd_binary64_never_nan : forall p s xs M, sd_new FOps p = Ok s -> (p < 9007199254740992)%N ->
+  (1 <= M)%R -> (M <= bpow radix2 400)%R -> Forall (okin M) xs -> (INR (length xs) + 2 <= bpow radix2 40)%R ->
+  Forall (fun o => finF o /\ (0 <= FR o)%R) (Wiring.sd_outs FOps s xs).
+Proof. exact sd_float_never_nan. Qed.
